@@ -299,63 +299,14 @@ def r2_inline_never_persistent(ctx):
 
 
 # ---------------------------------------------------------------------------
-def r3_overlay_read_before_write(ctx):
+def _audit_overlay_reads(ctx, f, g, rd, ef, may_alias, in_set_action, anchor, counts, depth=0):
+    """reads of a set-valued entry through a name that may alias the (just cleared) overlay, inside function f:
+    R3  a subscript load  <alias>[key]  must be preceded on every path by a store of that entry or a successful membership test;
+    R3c a get-style read needs a default that reads the persistent set, and a store that seeds the entry (the one under `key not in <alias>`)
+        must take its value from the persistent set (a copy, not the set object itself);
+    calls that hand the alias to another method of the class are followed once (inlining bound 1)."""
     rep = ctx.rep
-    f = ctx.func(UPD)
-    g = ctx.cfg(f)
-    rd = ctx.rd(f)
     recv = _recv(f)
-    sw = StateWrites(ctx)
-    ef = sw._with_param_filter(f, rd, {}, _inline_filter(True))
-    reach = graph.reachable([g.entry], efilter=ef)
-    n_sites = 0
-    for n in reach:
-        if n.kind not in ('stmt', 'test') or n.dup or isinstance(n.ast, (ast.FunctionDef, ast.ClassDef)):
-            continue
-        for sub in ast.walk(n.ast):
-            if not (isinstance(sub, ast.Subscript) and isinstance(sub.ctx, ast.Load)):
-                continue
-            base = sub.value
-            if not isinstance(base, ast.Name):
-                continue
-            # may the base alias the overlay under inline?
-            al = set()
-            for d in rd.at(n, base.id):
-                if isinstance(d.value, ast.AST) and field_name(d.value, recv):
-                    if graph.path([g.entry], lambda x, dn=d.node: x is dn, efilter=ef) is not None:
-                        al.add(field_name(d.value, recv).split('.', 1)[1])
-            if INLINE not in al:
-                continue
-            n_sites += 1
-            key_text = ast.unparse(sub.slice)
-            # every path (consistent with inline) from the innermost loop iteration start to this load
-            # passes a store of base[key] or the true edge of `key in base`
-            starts = [g.entry]
-            for fr in reversed(n.frames):
-                if fr.kind == 'loop':
-                    starts = [b for b in fr.head.nsucc() if b.kind == 'branch' and b.attrs['polarity'] in ('iter', True)]
-                    break
-            through = []
-            for m in reach:
-                if m.kind == 'stmt' and isinstance(m.ast, ast.Assign):
-                    for t in m.ast.targets:
-                        if isinstance(t, ast.Subscript) and is_name(t.value, base.id) and ast.unparse(t.slice) == key_text:
-                            through.append(m)
-                if m.kind == 'branch' and m.attrs['test'].kind == 'test':
-                    for fa in graph.facts_of(m.attrs['test'].ast, m.attrs['polarity']):
-                        e = fa.expr
-                        if isinstance(e, ast.Compare) and len(e.ops) == 1 and isinstance(e.ops[0], ast.In) and fa.polarity is True \
-                                and ast.unparse(e.left) == key_text and is_name(e.comparators[0], base.id):
-                            through.append(m)
-            wit = graph.must_pass(starts, lambda x: x is n, through=through, efilter=ef)
-            rep.ob('C04.R3', ctx.loc(f, sub), ctx.src(sub._parent if isinstance(sub._parent, ast.Attribute) and isinstance(sub._parent._parent, ast.Call) else sub), wit is None,
-                   'the overlay entry is stored or tested for membership on every path before it is read' if wit is None else
-                   'for an inline directive the overlay is empty at this read (it was just cleared): KeyError(%s) -- an inline +REQUIRES(unmet) fails the doctest instead of '
-                   'skipping one statement, an inline -REQUIRES(x) is silently ignored' % key_text,
-                   witness=None if wit is None else graph.fmt_path(wit, f.module.relpath), anchor=UPD)
-    # R3c: a set action on the overlay starts from the persistent set.  Reads of the previous value through
-    # <alias>.get(key, D) / .setdefault(key, D) need a default that reads self._global_state[key]; a store that seeds
-    # the overlay entry (the one guarded by `key not in <alias>`) must take its value from there as well.
     glob = recv + '.' + GLOBAL
 
     def reads_global(e, key_text):
@@ -365,36 +316,77 @@ def r3_overlay_read_before_write(ctx):
             if isinstance(x, ast.Call) and isinstance(x.func, ast.Attribute) and x.func.attr == 'get' and field_name(x.func.value, recv) == glob and x.args and ast.unparse(x.args[0]) == key_text:
                 return True
         return False
-
-    def may_alias_overlay(n, name):
-        for d in rd.at(n, name):
-            if isinstance(d.value, ast.AST) and field_name(d.value, recv) == recv + '.' + INLINE:
-                if graph.path([g.entry], lambda x, dn=d.node: x is dn, efilter=ef) is not None:
-                    return True
-        return False
-    dom = ctx.dom(g, g.entry)
-    n_get = 0
+    reach = graph.reachable([g.entry], efilter=ef)
+    dom = ctx.dom(g, g.entry, tag='c04-audit-%s' % f.qualname)
     for n in reach:
-        if n.kind not in ('stmt', 'test') or n.dup:
+        if n.kind not in ('stmt', 'test') or n.dup or isinstance(n.ast, (ast.FunctionDef, ast.ClassDef)):
             continue
         facts = graph.guard_facts(dom, n)
-        in_set_action = any(fa.polarity is True and isinstance(fa.expr, ast.Compare) and is_name(fa.expr.left, 'action') and isinstance(fa.expr.comparators[0], ast.Constant) and
-                            str(fa.expr.comparators[0].value).startswith('set.') for fa in facts)
-        if not in_set_action:
-            continue
-        for c in ast.walk(n.ast):
-            if isinstance(c, ast.Call) and isinstance(c.func, ast.Attribute) and c.func.attr in ('get', 'setdefault', 'pop') and isinstance(c.func.value, ast.Name) and c.args and may_alias_overlay(n, c.func.value.id):
-                n_get += 1
-                key_text = ast.unparse(c.args[0])
-                dflt = c.args[1] if len(c.args) > 1 else None
+        for sub in ast.walk(n.ast):
+            # R3: subscript loads
+            if isinstance(sub, ast.Subscript) and isinstance(sub.ctx, ast.Load) and isinstance(sub.value, ast.Name) and may_alias(n, sub.value.id):
+                base = sub.value
+                counts['loads'] += 1
+                key_text = ast.unparse(sub.slice)
+                starts = [g.entry]
+                for fr in reversed(n.frames):
+                    if fr.kind == 'loop':
+                        starts = [b for b in fr.head.nsucc() if b.kind == 'branch' and b.attrs['polarity'] in ('iter', True)]
+                        break
+                through = []
+                for m in reach:
+                    if m.kind == 'stmt' and isinstance(m.ast, ast.Assign):
+                        for t in m.ast.targets:
+                            if isinstance(t, ast.Subscript) and is_name(t.value, base.id) and ast.unparse(t.slice) == key_text:
+                                through.append(m)
+                    if m.kind == 'branch' and m.attrs['test'].kind == 'test':
+                        for fa in graph.facts_of(m.attrs['test'].ast, m.attrs['polarity']):
+                            e = fa.expr
+                            if isinstance(e, ast.Compare) and len(e.ops) == 1 and isinstance(e.ops[0], ast.In) and fa.polarity is True \
+                                    and ast.unparse(e.left) == key_text and is_name(e.comparators[0], base.id):
+                                through.append(m)
+                wit = graph.must_pass(starts, lambda x: x is n, through=through, efilter=ef)
+                rep.ob('C04.R3', ctx.loc(f, sub), ctx.src(sub._parent if isinstance(sub._parent, ast.Attribute) and isinstance(sub._parent._parent, ast.Call) else sub), wit is None,
+                       'the overlay entry is stored or tested for membership on every path before it is read' if wit is None else
+                       'for an inline directive the overlay is empty at this read (it was just cleared): KeyError(%s) -- an inline +REQUIRES(unmet) fails the doctest instead of '
+                       'skipping one statement, an inline -REQUIRES(x) is silently ignored' % key_text,
+                       witness=None if wit is None else graph.fmt_path(wit, f.module.relpath), anchor=anchor)
+            # R3c: get-style reads
+            if in_set_action(facts) and isinstance(sub, ast.Call) and isinstance(sub.func, ast.Attribute) and sub.func.attr in ('get', 'setdefault', 'pop') and \
+                    isinstance(sub.func.value, ast.Name) and sub.args and may_alias(n, sub.func.value.id):
+                counts['gets'] += 1
+                key_text = ast.unparse(sub.args[0])
+                dflt = sub.args[1] if len(sub.args) > 1 else None
                 ok = dflt is not None and reads_global(dflt, key_text)
-                rep.ob('C04.R3c', ctx.loc(f, c), ctx.src(c), ok,
+                rep.ob('C04.R3c', ctx.loc(f, sub), ctx.src(sub), ok,
                        'an empty overlay falls back to the persistent set' if ok else
                        'for an inline directive the overlay is empty here, and the fallback `%s` is not the persistent set: the requirements that are pending from block directives '
-                       'are dropped for this statement' % (ctx.src(dflt) if dflt is not None else 'None'), anchor=UPD)
-        if isinstance(n.ast, ast.Assign):
+                       'are dropped for this statement' % (ctx.src(dflt) if dflt is not None else 'None'), anchor=anchor)
+            # helper calls that receive the alias
+            if depth < 1 and isinstance(sub, ast.Call) and in_set_action(facts):
+                r = ctx.res.resolve_call(f, sub)
+                cal = r[1] if r[0] == 'repo' else (r[2] if r[0] == 'method' else [])
+                if len(cal) == 1 and cal[0].cls is not None and cal[0].cls is f.cls:
+                    h = cal[0]
+                    hparams = [a.arg for a in h.node.args.args][1:]
+                    bound = {}
+                    for i, a in enumerate(sub.args):
+                        if i < len(hparams) and isinstance(a, ast.Name) and may_alias(n, a.id):
+                            bound[hparams[i]] = True
+                    for k in sub.keywords:
+                        if k.arg in hparams and isinstance(k.value, ast.Name) and may_alias(n, k.value.id):
+                            bound[k.arg] = True
+                    if bound:
+                        gh = ctx.cfg(h)
+                        rdh = ctx.rd(h)
+
+                        def may_alias_h(node, name, bound=bound, rdh=rdh):
+                            return name in bound and all(d.kind == 'param' for d in rdh.at(node, name))
+                        _audit_overlay_reads(ctx, h, gh, rdh, graph.normal_only if False else None, may_alias_h, lambda facts_: True, h.qualname, counts, depth + 1)
+        # R3c: seeding stores
+        if isinstance(n.ast, ast.Assign) and in_set_action(facts):
             for t in n.ast.targets:
-                if isinstance(t, ast.Subscript) and isinstance(t.value, ast.Name) and may_alias_overlay(n, t.value.id):
+                if isinstance(t, ast.Subscript) and isinstance(t.value, ast.Name) and may_alias(n, t.value.id):
                     key_text = ast.unparse(t.slice)
                     seeding = any(fa.polarity is False and isinstance(fa.expr, ast.Compare) and isinstance(fa.expr.ops[0], ast.In) and ast.unparse(fa.expr.left) == key_text and
                                   is_name(fa.expr.comparators[0], t.value.id) for fa in facts)
@@ -402,13 +394,36 @@ def r3_overlay_read_before_write(ctx):
                         ok = reads_global(n.ast.value, key_text)
                         rep.ob('C04.R3c', ctx.loc(f, n.ast), ctx.src(n.ast), ok,
                                'the overlay entry is seeded with (a copy of) the persistent set' if ok else
-                               'the overlay entry of a set-valued key is seeded with something else than the persistent set', anchor=UPD)
+                               'the overlay entry of a set-valued key is seeded with something else than the persistent set', anchor=anchor)
                         aliasing = isinstance(n.ast.value, ast.Subscript) and field_name(n.ast.value.value, recv) == glob
                         if aliasing:
                             rep.ob('C04.R3c', ctx.loc(f, n.ast), 'copy, not alias: ' + ctx.src(n.ast), False,
-                                   'the overlay entry aliases the persistent set object: the in-place add/remove that follows changes the persistent state', anchor=UPD)
-    rep.ob('C04.R3', ctx.loc(f, f.node), 'set actions read the previous set', n_sites + n_get >= 1,
-           '%d subscript load(s), %d get-style read(s) on a possible overlay alias' % (n_sites, n_get) if n_sites + n_get else
+                                   'the overlay entry aliases the persistent set object: the in-place add/remove that follows changes the persistent state', anchor=anchor)
+
+
+def r3_overlay_read_before_write(ctx):
+    rep = ctx.rep
+    f = ctx.func(UPD)
+    g = ctx.cfg(f)
+    rd = ctx.rd(f)
+    recv = _recv(f)
+    sw = StateWrites(ctx)
+    ef = sw._with_param_filter(f, rd, {}, _inline_filter(True))
+
+    def may_alias(n, name):
+        for d in rd.at(n, name):
+            if isinstance(d.value, ast.AST) and field_name(d.value, recv) == recv + '.' + INLINE:
+                if graph.path([g.entry], lambda x, dn=d.node: x is dn, efilter=ef) is not None:
+                    return True
+        return False
+
+    def in_set_action(facts):
+        return any(fa.polarity is True and isinstance(fa.expr, ast.Compare) and is_name(fa.expr.left, 'action') and isinstance(fa.expr.comparators[0], ast.Constant) and
+                   str(fa.expr.comparators[0].value).startswith('set.') for fa in facts)
+    counts = {'loads': 0, 'gets': 0}
+    _audit_overlay_reads(ctx, f, g, rd, ef, may_alias, in_set_action, UPD, counts)
+    rep.ob('C04.R3', ctx.loc(f, f.node), 'set actions read the previous set', counts['loads'] + counts['gets'] >= 1,
+           '%d subscript load(s), %d get-style read(s) on a possible overlay alias' % (counts['loads'], counts['gets']) if counts['loads'] + counts['gets'] else
            'no set action reads the value it is supposed to extend', nontrivial=False, anchor=UPD)
 
 
